@@ -183,6 +183,57 @@ class TwoBlocks(DictCfg):
         return {"a": 1.0, "b": 1.0}
 
 
+class NIG(DictCfg):
+    """mu | sigma2 ~ N(0, 4 sigma2), sigma2 ~ InvGamma(3, 2), y_i ~ N(mu, sigma2); sigma2 is sampled on its ORIGINAL
+    scale with a random walk: proposals below 0 have an undefined (NaN) log-density and must be rejected."""
+    n = 6
+
+    def __init__(self, name, kern):
+        super().__init__(name)
+        self.kern = kern
+
+    def prior_predictive(self, rng, N):
+        s2 = 2.0 / rng.gamma(3.0, size=N)
+        mu = rng.normal(size=N) * np.sqrt(4 * s2)
+        y = mu[:, None] + np.sqrt(s2)[:, None] * rng.normal(size=(N, self.n))
+        return {"mu": mu, "s2": s2}, {"y": y}
+
+    def log_prob(self, s):
+        import jax.numpy as jnp
+
+        s2 = s["s2"]
+        ls2 = jnp.log(s2)          # NaN for s2 < 0
+        return (-0.5 * ls2 - 0.5 * s["mu"] ** 2 / (4 * s2) - 4.0 * ls2 - 2.0 / s2
+                - 0.5 * self.n * ls2 - 0.5 * jnp.sum((s["y"] - s["mu"]) ** 2) / s2)
+
+    def kernels(self):
+        import jax
+        import jax.numpy as jnp
+        import liesel.goose as gs
+
+        n = self.n
+
+        def mu_gibbs(key, state):
+            prec = (n + 0.25) / state["s2"]
+            mean = jnp.sum(state["y"]) / (n + 0.25)
+            return {"mu": mean + jax.random.normal(key) / jnp.sqrt(prec)}
+        second = gs.RWKernel(["s2"], initial_step_size=0.9) if self.kern == "gibbs+rw" else \
+            gs.IWLSKernel(["s2"], chol_info_fn=lambda st: jnp.ones((1, 1)) * 1.5, initial_step_size=1.0)
+        return [gs.GibbsKernel(["mu"], mu_gibbs), second]
+
+    def test_functions(self, th, data):
+        mu, s2, y = th["mu"], th["s2"], data["y"]
+        ls = np.log(np.abs(s2) + 1e-300)
+        return {"mu": mu, "log_s2": ls, "log_s2^2": ls ** 2, "mu^2/s2": np.clip(mu ** 2 / np.abs(s2), 0, 200), "s2<=0": (s2 <= 0).astype(float),
+                "log_s2*sy": ls * y.std(axis=1), "mu*ybar": mu * y.mean(axis=1), "1/s2": np.clip(1 / np.abs(s2), 0, 100)}
+
+    def prior_cdfs(self):
+        return {"s2": lambda x: sst.invgamma.cdf(x, 3.0, scale=2.0)}
+
+    def prior_sd(self):
+        return {"mu": 2.0, "s2": 1.0}
+
+
 class MeanLogScale(DictCfg):
     n = 6
 
@@ -348,6 +399,15 @@ class LieselCfg:
             mu = lsl.Var(lsl.Calc(lambda b: jnp.asarray(self.Z) @ b, b2), name="mu")
             y = lsl.obs(jnp.zeros(self.n, jnp.float32), lsl.Dist(tfd.Normal, loc=mu, scale=1.0), name="y")
             return lsl.GraphBuilder().add(y).add_groups(self.grp).build_model()
+        if self.which == "bounded":
+            # x ~ Uniform(0, upper) with the *default* (parameter-dependent) bijector Sigmoid(0, upper); upper itself is sampled
+            self.n = 3
+            upper = lsl.param(jnp.asarray(1.0, jnp.float32), lsl.Dist(tfd.LogNormal, loc=0.3, scale=0.4), name="upper")
+            upper.transform(tfb.Exp())
+            x = lsl.param(jnp.asarray(0.5, jnp.float32), lsl.Dist(tfd.Uniform, low=0.0, high=upper), name="x")
+            x.auto_transform = True
+            y = lsl.obs(jnp.zeros(self.n, jnp.float32), lsl.Dist(tfd.Normal, loc=x, scale=0.7), name="y")
+            return lsl.GraphBuilder().add(y).build_model()
         # mixture
         self.n = 4
         self.outs = np.array([0.0, 1.0, 2.0], np.float32)
@@ -372,6 +432,11 @@ class LieselCfg:
             b2 = (rng.normal(size=(N, self.q)) @ L.T) * np.sqrt(tau2)[:, None]
             y = b2 @ self.Z.T + rng.normal(size=(N, self.n))
             return {"b2": b2, "tau2": tau2}, {"y": y}
+        if self.which == "bounded":
+            upper = np.exp(rng.normal(0.3, 0.4, N))
+            x = rng.uniform(0.0, 1.0, N) * upper
+            y = x[:, None] + 0.7 * rng.normal(size=(N, self.n))
+            return {"upper_transformed": np.log(upper), "x_transformed": np.log(x / upper) - np.log1p(-x / upper)}, {"y": y}
         k = rng.choice(self.outs, size=N, p=self.pr / self.pr.sum()).astype(np.float64)
         m = rng.normal(0, 1.5, N)
         y = (m + 1.5 * k)[:, None] + rng.normal(size=(N, self.n))
@@ -414,6 +479,11 @@ class LieselCfg:
             first = gs.IWLSKernel(["b2"], initial_step_size=1.0) if self.kern == "iwls+tau2" else \
                 gs.NUTSKernel(["b2"], initial_step_size=0.35, initial_inverse_mass_matrix=jnp.ones(self.q), max_treedepth=4)
             return [first, lsl.tau2_gibbs_kernel(self.grp)]
+        if self.which == "bounded":
+            if self.kern == "nuts+rw":
+                return [gs.NUTSKernel(["x_transformed"], initial_step_size=0.5, initial_inverse_mass_matrix=jnp.ones(1), max_treedepth=3),
+                        gs.RWKernel(["upper_transformed"], initial_step_size=0.5)]
+            return [gs.RWKernel(["x_transformed"], initial_step_size=1.0), gs.IWLSKernel(["upper_transformed"], initial_step_size=0.9)]
         if self.kern == "disc+nuts":
             return [finite_discrete_gibbs_kernel("k", model), gs.NUTSKernel(["m"], initial_step_size=0.5, initial_inverse_mass_matrix=jnp.ones(1), max_treedepth=3)]
         return [gs.RWKernel(["m"], initial_step_size=0.8), finite_discrete_gibbs_kernel("k", model)]
@@ -462,6 +532,12 @@ class LieselCfg:
             return {"b_0": b[:, 0], "b_1": b[:, 1], "b_2": b[:, 2], "logtau2": lt, "logtau2^2": lt ** 2, "b_0^2": b[:, 0] ** 2,
                     "b_0*b_1": b[:, 0] * b[:, 1], "bKb/tau2": np.einsum("ni,ij,nj->n", b, self.K.astype(np.float64), b) / t2,
                     "b_0*zy": b[:, 0] * (y @ self.Z[:, 0]), "loglik": -0.5 * np.sum(res_ ** 2, axis=1)}
+        if self.which == "bounded":
+            lu, tx = th["upper_transformed"], th["x_transformed"]
+            up = np.exp(lu)
+            x = up / (1 + np.exp(-tx))
+            return {"log_upper": lu, "log_upper^2": lu ** 2, "x": x, "x^2": x ** 2, "x/upper": x / up, "(x/upper)^2": (x / up) ** 2,
+                    "x*ybar": x * y.mean(axis=1), "log_upper*ybar": lu * y.mean(axis=1), "loglik": -0.5 * np.sum((y - x[:, None]) ** 2, axis=1) / 0.49}
         k, m = th["k"], th["m"]
         return {"m": m, "m^2": m ** 2, "k": k, "k==0": (k == 0).astype(float), "k==2": (k == 2).astype(float), "m*k": m * k,
                 "m*ybar": m * y.mean(axis=1), "k*ybar": k * y.mean(axis=1), "loglik": -0.5 * np.sum((y - (m + 1.5 * k)[:, None]) ** 2, axis=1)}
@@ -471,9 +547,13 @@ class LieselCfg:
             return {"beta": lambda x: sst.norm.cdf(x, 0, 2.0), "sigma2_transformed": lambda x: sst.invgamma.cdf(np.exp(x), 3.0, scale=2.0)}
         if self.which == "smooth":
             return {"tau2": lambda x: sst.invgamma.cdf(x, 3.0, scale=2.0)}
+        if self.which == "bounded":
+            return {"upper_transformed": lambda x: sst.norm.cdf(x, 0.3, 0.4), "x_transformed": lambda x: sst.logistic.cdf(x)}
         return {"m": lambda x: sst.norm.cdf(x, 0, 1.5)}
 
     def prior_sd(self):
+        if self.which == "bounded":
+            return {"upper_transformed": 0.4, "x_transformed": 1.8}
         if self.which == "linreg":
             return {"beta": 2.0, "sigma2_transformed": 0.6}
         if self.which == "smooth":
@@ -496,12 +576,16 @@ def all_configs():
         cfgs[f"liesel-linreg/{k}"] = lambda k=k: LieselCfg(f"liesel-linreg/{k}", "linreg", k)
     for k in ("iwls+tau2", "nuts+tau2"):
         cfgs[f"liesel-smooth/{k}"] = lambda k=k: LieselCfg(f"liesel-smooth/{k}", "smooth", k)
+    for k in ("nuts+rw", "rw+iwls"):
+        cfgs[f"liesel-bounded/{k}"] = lambda k=k: LieselCfg(f"liesel-bounded/{k}", "bounded", k)
+    for k in ("gibbs+rw", "gibbs+iwls_user"):
+        cfgs[f"nig-original-scale/{k}"] = lambda k=k: NIG(f"nig-original-scale/{k}", k)
     for k in ("disc+nuts", "rw+disc"):
         cfgs[f"liesel-mixture/{k}"] = lambda k=k: LieselCfg(f"liesel-mixture/{k}", "mixture", k)
     return cfgs
 
 
-QUICK = ["two-blocks/rw+rw", "normal-normal/rw", "normal-normal/mh_asym", "normal-normal/gibbs", "mean-logscale/rw+hmc", "mean-logscale/nuts_joint",
+QUICK = ["liesel-bounded/nuts+rw", "nig-original-scale/gibbs+rw", "two-blocks/rw+rw", "normal-normal/rw", "normal-normal/mh_asym", "normal-normal/gibbs", "mean-logscale/rw+hmc", "mean-logscale/nuts_joint",
          "mean-logscale/iwls_joint", "logit/iwls", "pois/iwls_user", "liesel-linreg/nuts+rw", "liesel-linreg/iwls+gibbs",
          "liesel-smooth/iwls+tau2", "liesel-mixture/disc+nuts"]
 
